@@ -557,6 +557,9 @@ class CExec(object):
             st.broke.pop()
             st.continued.pop()
             return
+        h = self.loop_contracts.get((self.cur_fn[-1] if self.cur_fn else "?", "do*"))
+        if h is not None:
+            return h(self, s, st, (self.cur_fn[-1] if self.cur_fn else "?", "do"))
         raise OutsideSubset("do-while with a non-constant condition")
 
     def try_const(self, e, st):
@@ -1334,6 +1337,26 @@ class WhileContract(object):
         for o in mods:
             havoc_obj(o, "after")
         st.facts.append(z3.Implies(st.live(), self.post(ex, st)))
+
+
+class HavocLoop(object):
+    """Trivial loop contract (invariant True): everything the loop statement may modify is arbitrary afterwards,
+    everything else is unchanged.  Sound for partial correctness; enough where the claim does not depend on what the
+    loop computes (e.g. F2 = F1^2 after a shell loop of symbolic length).  Loops containing a return are refused."""
+
+    def __call__(self, ex, s, st, key):
+        if any(n.get("kind") == "ReturnStmt" for n in _walk(s)):
+            raise OutsideSubset("loop %s with a return statement has no contract" % (key,))
+        inner = s.get("inner", [])
+        if s.get("kind") == "ForStmt" and inner and inner[0].get("kind"):
+            init = inner[0]
+            if init.get("kind") == "DeclStmt":
+                ex.exec_stmt(init, st)
+            else:
+                ex.rvalue(init, st)
+        for o in resolve_mods(st, s):
+            havoc_obj(o, "havoc")
+        ex.__dict__.setdefault("havoc_loops_used", []).append(key)
 
 
 class MapLoop(object):
